@@ -11,7 +11,7 @@ VERIF = os.path.dirname(os.path.dirname(os.path.abspath(__file__)))
 
 INTRO = """### 12.6 Seeded changes: which check catches which change
 
-Five rounds. In each, one fresh sub-agent per property was given only the property text and its own scratch worktree
+Six rounds. In each, one fresh sub-agent per property was given only the property text and its own scratch worktree
 (nothing from /verif) and asked for a realistic change that breaks the property, compiles, passes the 137 tests and
 needs something specific to manifest; in round 2 the agent was additionally told which site round 1 had used and to
 find a different mechanism (preferably an interplay of two features: a cache with a second occurrence, an option with
@@ -91,7 +91,19 @@ again, all caught), and one change - `C20-v3-ignore-test-skipped-above-mindepth`
 its detection had depended on a single lucky draw. A shape a check is meant to catch needs a generator branch of its
 own; C20 has one now, and the change is caught under five seeds.
 
-Over the five rounds: 100 changes, 61 caught by the checks as they stood at the time, 39 missed and all 39 caught after
+Round 6 (on the final repaired tree 0837add, five used-up sites per property; `sensitivity/seedall-round6.json`): 20
+changes, 14 caught as the checks stood (C01, C02, C05, C06, C07, C08, C10, C12, C13, C14, C15, C16, C19, C20), 6 missed
+and caught after strengthening: ordering operators over a text column that holds the empty text (C03 - every entry of
+its fixed tree had had an extension), `ext` of an archive member below a dotted directory (given for C04, caught by C19,
+which now asserts the member's `ext`), group rows ordered by a key that is not displayed (C09 - grouped cases were never
+ordered), a leading NOT directly in front of `not like` / `not rx` (C11 - a leading NOT had always been followed by a
+bracket), `sha256` of an entry that cannot be opened (C17 - only `sha1` was selected), two `symlinks` roots whose walks
+meet (C18 - one root per query). Five of the six are enumerated cases now; C09's is a generator branch taken by four of
+five grouped cases. While extending C03's fixed tree, `size >= ext` with an empty `ext` came up as "neither side":
+that is the no-value rule as designed (an empty text on the right of a numeric comparison is no value), so the atom now
+uses `path`; nothing about it was ever committed as an alarm.
+
+Over the six rounds: 120 changes, 75 caught by the checks as they stood at the time, 45 missed and all 45 caught after
 a generator or oracle extension; no check was loosened, and every extension was re-run on the unchanged tree.
 """
 
